@@ -130,7 +130,7 @@ func shaOf(s string) string {
 }
 
 func checkC14(c *Check) {
-	c.Rule = "event log {process, history, step, tree location, program, target} -> sha256(script) | error, checked offline: for each (program, target) all hashes must be equal. Histories: every ordered pair of (program, target) calls on one transpiler object, random histories of 3-15 calls on one object (fresh converter per call), edit histories (the tree under one path is overwritten between calls on one object with programs that share the main file's bytes but not the imports'), the whole corpus in N fresh processes (different map seeds), in 3 relocated copies of the source tree (deep path, path with blanks, relative path with another cwd), through the tsh command in five target orders; secondary monitor: the Converter-boundary call trace of a recording wrapper must be identical for identical (program, target). Non-trivial = an observation of a program that transpiles successfully; distinct = (history, step)"
+	c.Rule = "event log {process, history, step, tree location, program, target} -> sha256(script) | error, checked offline: for each (program, target) all hashes must be equal. Histories: every ordered pair of (program, target) calls on one transpiler object, random histories of 3-15 calls on one object (fresh converter per call), edit histories (the tree under one path is overwritten between calls on one object with programs that share the main file's bytes but not the imports'), the whole corpus in N fresh processes (different map seeds), in 3 relocated copies of the source tree (deep path, path with blanks, relative path with another cwd), through the tsh command in five target orders, from a working directory holding look-alikes of the imported files (a std directory with other contents); secondary monitor: the Converter-boundary call trace of a recording wrapper must be identical for identical (program, target). Non-trivial = an observation of a program that transpiles successfully; distinct = (history, step)"
 	c.Assumptions = []string{"a fresh converter per Transpile call, as the anchor states the contract", "error texts may contain paths: for failing programs only 'is an error' is compared"}
 	corpus := c14Corpus(c)
 	root := filepath.Join(scratch(), "c14")
@@ -286,6 +286,35 @@ func checkC14(c *Check) {
 			shaW := extractJSONField(string(out), "batch")
 			record(c14Event{"relproc", "relative-path", i, "blank-relative", p.name, Bash, shaB.sha, shaB.isErr, ""})
 			record(c14Event{"relproc", "relative-path", i, "blank-relative", p.name, Batch, shaW.sha, shaW.isErr, ""})
+		}
+	}
+	// 5a. processes started in a working directory that holds look-alikes of what the programs import (a std
+	// directory with other contents, files named like the imports): the working directory is not an input
+	{
+		exe, _ := os.Executable()
+		decoy := filepath.Join(root, "decoy cwd")
+		os.MkdirAll(filepath.Join(decoy, "std"), 0o755)
+		fake := "func Contains(s string, substr string) bool {\n\treturn false\n}\nfunc HasPrefix(s string, prefix string) bool {\n\treturn false\n}\nfunc HasSuffix(s string, suffix string) bool {\n\treturn false\n}\nfunc Repeat(s string, count int) string {\n\treturn \"decoy\"\n}\nfunc TrimSpace(s string) string {\n\treturn \"decoy\"\n}\nfunc Split(s string, sep string) []string {\n\treturn []string{\"decoy\"}\n}\nfunc Join(elems []string, sep string) string {\n\treturn \"decoy\"\n}\n"
+		for _, n := range []string{"std/strings.tsh", "strings.tsh", "strings", "std/os.tsh", "os.tsh", "lib.tsh", "l1.tsh", "base.tsh"} {
+			content := fake
+			if strings.Contains(n, "os") {
+				content = "func Shell() string {\n\treturn \"decoy\"\n}\n"
+			}
+			os.WriteFile(filepath.Join(decoy, n), []byte(content), 0o644)
+		}
+		for i, p := range corpus {
+			cmd := exec.Command(exe, "worker", "plain")
+			cmd.Dir = decoy
+			cmd.Stdin = strings.NewReader(fmt.Sprintf("{\"id\":%d,\"main\":%q}\n", i, mainOf("home", p)))
+			out, err := cmd.Output()
+			if err != nil {
+				c.Inconclusive("decoy-cwd worker failed")
+				continue
+			}
+			shaB := extractJSONField(string(out), "bash")
+			shaW := extractJSONField(string(out), "batch")
+			record(c14Event{"decoyproc", "decoy-working-directory", i, "home", p.name, Bash, shaB.sha, shaB.isErr, ""})
+			record(c14Event{"decoyproc", "decoy-working-directory", i, "home", p.name, Batch, shaW.sha, shaW.isErr, ""})
 		}
 	}
 	// 5b. the tsh command as one more process kind: one invocation per target order (single targets, both orders,
